@@ -1,3 +1,8 @@
 //! C18 driver: the same observation program as C05 (subcommands `emit`, `raw`), built as its own
 //! binary; cases carry a `mappings` table that is put into GenerateConfig.type_mappings.
-include!("c05.rs");
+#[path = "c05.rs"]
+mod driver;
+
+fn main() {
+    driver::main()
+}
